@@ -213,7 +213,7 @@ PROPS["C08"] = dict(
     theorems="Properties/C08.v",
     proof_files=["Bus/BusModel.v", "Bus/BusRun.v", "Bus/BusInv.v", "Properties/C08.v"],
     suites=[dict(name="bus08", mod="core", family="bus08", corr="Corr.BusOracle", check="check_bus", shard=25), dict(name="busseq", mod="core", family="busseq", corr="Corr.BusOracle", check="check_bus", shard=25)],
-    level_text='Proved in Coq: every publish runs observability start, legacy before hook, context-aware before slot, THEN the snapshot, and after the last queued handler the once-removal, legacy after hook, context-aware after hook, observability complete - each exactly once, with or without handlers; a cancelled context stops sync handlers at the last decision before the call, never claims a Once handler, reduces an async delivery to wg.Done; context-aware handlers are entered with the publish context. Tied to the code by controller-driven runs over all hook subsets, sync/async/context-aware mixes, cancellation before the call or by any handler/hook/filter body.',
+    level_text='Proved in Coq: every publish runs observability start, legacy before hook, context-aware before slot, THEN the snapshot, and after the last queued handler the once-removal, legacy after hook, context-aware after hook, observability complete - each exactly once, with or without handlers; a cancelled context stops sync handlers at the last decision before the call, never claims a Once handler, reduces an async delivery to wg.Done; context-aware handlers are entered with the publish context; cancellation is permanent; and at run level, over every schedule of every program: a publish made with an already cancelled context enters no handler at all, ever (C08_precancelled_publish_enters_nothing: invariants on the code of every goroutine and on the entry log). Tied to the code by controller-driven runs over all hook subsets, sync/async/context-aware mixes, cancellation before the call or by any handler/hook/filter body.',
     level_note='Trusted: Coq kernel + vm_compute; the hand-written small-step model of event_bus.go / persistEvent (flat registry; sync.Mutex, RWMutex, WaitGroup, atomic CAS, goroutine creation and recover are modelled as atomic micro-steps); the controller harness (parks goroutines at user-code callbacks, reads goroutine states from runtime.Stack) and the replay of its log on the model (Bus/BusRun.v); the oracle Corr/BusOracle.v; interleavings strictly inside bus code are not forced by the controller.',
     rule='cases = seeded random programs (threads, handler/filter/hook bodies that call back into the bus, options) run on the real bus under the controller with a seeded random schedule; every run is replayed on the Coq model along the controller log and judged by the oracle; directed witness programs run first; C08: one goroutine, every subset of the four hook slots, 70% of publishes on cancellable contexts, cancel actions in handler/hook/filter bodies; non-trivial = every case; distinct = distinct program+schedule',
 )
